@@ -94,7 +94,7 @@ def q_flat_offset(interp, args, kwargs):
             ln = length_at(slist_elem(interp, xs, z3.simplify(kt)))
             st.assume(z3.And(ln >= 0, O(kt + 1) == O(kt) + ln))
     lemma_key = ('flat-offsets-monotone', name)
-    if lemma_key not in st.ghost:
+    if lemma_key not in st.ghost and 'lemma_flat_offsets_monotone' not in interp.current_function_name():
         st.ghost[lemma_key] = True
         a, b = z3.Int(name + '!a'), z3.Int(name + '!b')
         st._add(z3.ForAll([a, b], z3.Implies(z3.And(0 <= a, a <= b, b <= n), O(a) <= O(b)),
